@@ -111,7 +111,7 @@ def strategy(tier):
                 max=st.integers(1200000, 6000000),
                 cur_file=st.sampled_from(["scaling", "scaling", "cpuinfo_cur",
                                           "offline"]),
-            )), min_size=0, max_size=6),
+            )), min_size=0, max_size=13),
             cpuinfo_lines=st.sampled_from(["match", "match", "fewer", "none"]),
         )),
         # cpu count
